@@ -113,7 +113,10 @@ def run(s):
                         else:
                             fac = factor
                         base = RecBase(base_name)
-                        rw.ResultsWriter(base).write(cfg)
+                        try:
+                            rw.ResultsWriter(base).write(cfg)
+                        except Exception as e:
+                            return core.refuted("finite", "write(%r) on the %s base raises %r" % (cfg, base_name, e), witness_id="writer-raise:%s" % kw, replay={"reproduced": True})
                         n += 1
                         src = getattr(base, attr)
                         if kind == "ij":
